@@ -8,7 +8,6 @@ for l in open('/verif/properties.jsonl'):
     p=json.loads(l)
     if p['id']==pid:
         prop="Title: %s\n\nStatement: %s\n\nQuantified over: %s\n\nWhy the existing tests cannot settle it: %s\n\nAnchors (files): %s\n"%(p['title'],p['statement'],p['quantifier']['text'],p['why_tests_cant'],", ".join(p['anchors']['files']))
-base=open('/tmp/agent_prompt.py').read()
 wt="/tmp/wt_%s%s"%(pid,tag)
 av="\n".join("  - in %s: %s ..."%v for v in avoid.values())
 text=f"""You are helping to evaluate a verification tool for the Go project olric (a distributed in-memory key/value store, module github.com/olric-data/olric). Your job is to play the role of a developer who introduces a realistic, subtle regression.
